@@ -6,7 +6,7 @@ return type). Obligation: every reachable predecessor of the CFG exit block ends
 from vfacts import walk
 
 RULE = 'FALLOFF'
-FLOOR = 650
+FLOOR = 400
 ASSUMPTIONS = ['release configuration: -DNDEBUG as in the build, assert() expands to nothing']
 
 
